@@ -27,6 +27,15 @@ class MeanFunction(ABC):
     def mean_and_gradients(self, theta: ndarray):
         pass
 
+    def spatial_gradient(self, q: ndarray, theta: ndarray) -> ndarray:
+        """
+        Gradient of the mean function with respect to the spatial position ``q``.
+        """
+        raise NotImplementedError(
+            "This mean function does not implement spatial_gradient, which is required "
+            "to predict spatial derivatives with a non-constant mean."
+        )
+
 
 class ConstantMean(MeanFunction):
     def __init__(self, hyperpar_bounds=None):
@@ -49,6 +58,9 @@ class ConstantMean(MeanFunction):
 
     def mean_and_gradients(self, theta: ndarray):
         return zeros(self.n_data) + theta[0], [ones(self.n_data)]
+
+    def spatial_gradient(self, q: ndarray, theta: ndarray) -> ndarray:
+        return zeros(q.size)
 
 
 class LinearMean(MeanFunction):
@@ -81,6 +93,9 @@ class LinearMean(MeanFunction):
         grads = [ones(self.n_data)]
         grads.extend([v for v in self.dx.T])
         return theta[0] + dot(self.dx, theta[1:]), grads
+
+    def spatial_gradient(self, q: ndarray, theta: ndarray) -> ndarray:
+        return zeros(q.size) + theta[1:]
 
 
 class QuadraticMean(MeanFunction):
@@ -124,3 +139,6 @@ class QuadraticMean(MeanFunction):
         grads.extend([v for v in self.dx.T])
         grads.extend([v for v in self.dx_sqr.T])
         return self.build_mean(theta), grads
+
+    def spatial_gradient(self, q: ndarray, theta: ndarray) -> ndarray:
+        return theta[self.lin_slc] + 2 * theta[self.quad_slc] * (q - self.x_mean)
